@@ -421,6 +421,11 @@ class Grid(object):
             Itself to allow for chaining these transformations.
         '''
         self.coords.reverse()
+
+        # Per-point weights travel with their points.
+        if self._weights is not None and np.ndim(self._weights) > 0:
+            self._weights = self._weights[::-1].copy()
+
         return self
 
     def reversed(self):
